@@ -137,7 +137,7 @@ def driver_sites(F):
 def run(prop, repo, seed):
     t0 = time.time()
     fd = extract.facts_dir(repo, 'all')
-    F, roles, R = engine.run_all(fd)
+    F, roles, R, vinfo = engine.run_best(fd)
     sc = checkmod.engine_selfcheck(R, prop)
     extra_viol = []
     configs = ['workspace --all-features (lib targets)']
@@ -150,7 +150,7 @@ def run(prop, repo, seed):
         except SystemExit as e:
             extra_viol.append(dict(rule='CONFIG', key=cfg, ok=False, msg='configuration %s does not compile: %s' % (cfg, e), where='', props=(prop,), status='CONFIG-BUILD'))
             continue
-        cF, croles, cR = engine.run_all(cfd)
+        cF, croles, cR, _cv = engine.run_best(cfd)
         skip = CONFIG_SKIP.get(cfg, ())
         bad = []
         for o in cR.for_prop(prop):
@@ -172,7 +172,7 @@ def run(prop, repo, seed):
     survived = [t for t in table if t['verdict'] == 'SURVIVED']
     false_alarm = [t for t in table if t['verdict'] == 'FALSE-ALARM']
     silent_ok = sum(1 for t in table if t['verdict'] == 'ok-silent')
-    extra = {'engine_selfcheck': sc, 'configurations': configs, 'per_configuration': per_config,
+    extra = {'engine_selfcheck': sc, 'views': checkmod.view_cov(vinfo, prop), 'configurations': configs, 'per_configuration': per_config,
              'self_test': {'mutants': len(table), 'killed': killed, 'survived': [t['id'] for t in survived], 'equivalent_silent': silent_ok,
                            'false_alarms_on_equivalent': [t['id'] for t in false_alarm], 'skipped': [t['id'] for t in table if t['verdict'] in ('skipped', 'build-failed')],
                            'matrix': table}}
